@@ -13,6 +13,8 @@ def clause_code(tok, S):
     t = tok[1:] if lr else tok
     if t[0] == 'W' and t[1:].isdigit():
         return '.%sWITH(WC(%d,%s,_1))' % ('LR_' if lr else '', S, t[1:])
+    if tok.startswith('MS'):
+        return '.SIDE_EFFECT(SE(%d,%s); _1 = 77)' % (S, tok[2:])
     if t[0] == 'S' and t[1:].isdigit():
         return '.%sSIDE_EFFECT(SE(%d,%s))' % ('LR_' if lr else '', S, t[1:])
     if t == 'R':
